@@ -525,9 +525,13 @@ func getNextPos(slice1, slice2 []uint64, slice1Idx, slice2Idx int) (uint64, int,
 		return pos, -1, -1
 	}
 
-	// Attempt to grab the sibling of the current position to process.
+	// Attempt to grab the sibling of the current position to process. Only a
+	// left node can be followed by its sibling; the same position showing up
+	// again after a right node is not its sibling.
 	sibIdx := nextLeastSlice(slice1, slice2, slice1Idx, slice2Idx)
-	if sibIdx == 0 {
+	if !isLeftNiece(pos) {
+		sibIdx = -1
+	} else if sibIdx == 0 {
 		if rightSib(pos) != slice1[slice1Idx] {
 			sibIdx = -1
 		}
